@@ -509,3 +509,25 @@ Section SaveLoad.
     | FErr e => FErr e
     end.
 End SaveLoad.
+
+(* --- the pure form: histories over a prefix-free family of paths ---------------------------------------
+   When no path of the family runs through another one, every save succeeds and what is read is a function
+   of the history alone. *)
+Definition is_dir_at (root : node) (cs : list str) : bool :=
+  match locate root cs with LFound (NDir _) => true | _ => false end.
+Definition family_ok (F : list str) : Prop :=
+  (forall p, In p F -> routed p = true /\ slashed p = false /\ rsplit p <> None) /\
+  (forall p p' suf, In p F -> In p' F -> components p' = components p ++ suf -> suf = []).
+Definition family_op (F : list str) (o : op) : Prop :=
+  match o with
+  | OSave p _ | ORm p => In p F
+  | ORead _ | OExists _ | OListdir _ | OIsdir _ | OSeqRead _ => True
+  | OMkdirs _ | OWrite _ _ _ | OSeqWrite _ _ _ => False
+  end.
+Definition pure_step (a : amap) (o : op) : amap :=
+  match o with
+  | OSave p c => aupd a (components p) (Some c)
+  | ORm p => aupd a (components p) None
+  | _ => a
+  end.
+Definition last_saved (h : list op) : amap := fold_left pure_step h (fun _ => None).
